@@ -30,6 +30,8 @@ ASSUMPTIONS = [
     "No claim that unequal hashes imply unequal objects, nor that objects equal only within tolerance hash equally.",
     "A 2pi / 4pi shift may legitimately compare equal or unequal; only symmetry and 'equal => same matrix' are asserted for it.",
     "Measurement processes over mid-circuit-measurement values are not generated (a rebuilt qp.measure carries a fresh id by design).",
+    "LinearCombination @ LinearCombination on shared wires is refused by __matmul__ with its own ValueError (stated precondition): rejected, after "
+    "verifying on the built operands that the pair really is two LinearCombinations with a common wire.",
     "Matrix implication only where both objects expose a matrix through qp.matrix (channels, state preparations, matrix-free templates with work wires skip it).",
 ]
 BUDGET = {"quick": {"examples": 1100}, "thorough": {"examples": 100000, "shards": 16}}
@@ -383,6 +385,38 @@ def _build(s):
     return zoo_extra.build(s)
 
 
+LC_MATMUL_MSG = "LinearCombinations can only be multiplied together if they act on different sets of wires"
+
+
+def _lc_matmul_precondition_broken(s):
+    """True iff some `prod` node of the spec built with the `@` dunder multiplies two LinearCombination objects that share a wire.
+
+    LinearCombination.__matmul__ states that precondition itself and refuses such a pair with a dedicated ValueError (qp.prod is the
+    documented way to multiply operators on overlapping wires). C03's expression generator, which this module reuses, does not know the
+    precondition, so the thorough tier reported the refusal as an unexpected exception. The refusal is turned into a rejection only after
+    re-doing the fold on the built operands and seeing that both sides really are LinearCombinations with a common wire: the same
+    message for any other pair still alarms."""
+    import pennylane as qp
+
+    if isinstance(s, list):
+        return any(_lc_matmul_precondition_broken(x) for x in s)
+    if not isinstance(s, dict):
+        return False
+    if s.get("op") == "prod" and s.get("via") == "dunder":
+        try:
+            ops = [zoo_extra.build(o) for o in s["operands"]]
+        except ValueError:
+            ops = None  # the refusal comes from deeper inside: the recursion below finds it
+        if ops:
+            out = ops[0]
+            for o in ops[1:]:
+                LC = qp.ops.LinearCombination
+                if isinstance(out, LC) and isinstance(o, LC) and set(out.wires) & set(o.wires):
+                    return True
+                out = out @ o
+    return any(_lc_matmul_precondition_broken(v) for v in s.values() if isinstance(v, (dict, list)))
+
+
 def _matrix_of(x, order):
     """Dense matrix of an operator / of a measurement's observable on `order`, or None."""
     import pennylane as qp
@@ -430,7 +464,12 @@ def check(spec):
         return Result(False, labels=zoo_extra.coverage_labels())
     a = spec["a"]
     sig = _sig(a)
-    x = _build(a)
+    try:
+        x = _build(a)
+    except ValueError as ex:
+        if LC_MATMUL_MSG in str(ex) and _lc_matmul_precondition_broken(a):
+            raise Reject("LinearCombination @ LinearCombination on shared wires (precondition stated by __matmul__)") from None
+        raise
     tname = type(x).__name__
     feats = {"cls": sig, "type": tname}
     labels = ["a:" + sig, "type:" + tname]
